@@ -46,7 +46,7 @@ fn next_half(
 	// Also it is not a good idea to use `match value.partial_cmp(slice[half]): it is slower.
 	if value.to_bits() == get(slice, half).to_bits() {
 		padding + half
-	} else if &value > get(slice, half) {
+	} else if value.total_cmp(get(slice, half)) == Ordering::Greater {
 		f(value, get(slice, (half + 1)..), padding + half + 1)
 	} else {
 		f(value, get(slice, ..half), padding)
@@ -256,10 +256,10 @@ impl<'de> Deserialize<'de> for SMM {
 		let mut sort_error = false;
 
 		slice.sort_unstable_by(|a, b| {
-			a.partial_cmp(b).unwrap_or_else(|| {
+			if a.is_nan() || b.is_nan() {
 				sort_error = true;
-				Ordering::Equal
-			})
+			}
+			a.total_cmp(b)
 		});
 
 		if sort_error {
